@@ -276,6 +276,19 @@ def pollBestTip (s : Source) (cl : Client) : PollOut :=
     let (cl', connected, ns, r) := updateChainTip s cl req t
     ⟨.ok (.better t, connected), cl', ns, r⟩
 
+/-! ### the tuple listener adapter (lightning/src/chain/mod.rs `impl Listen for (T, U)`) -/
+
+/-- what the two components of a tuple listener receive, in delivery order, when the tuple is notified of `ns`:
+    every notification goes to the components in the translated order (`tupleConnectOrder` / `tupleDisconnectOrder`)
+    before the next notification is delivered -/
+def tupleDeliver (ns : List Notif) : List (Nat × Notif) :=
+  ns.flatMap (fun n => match n with
+    | .connected .. => tupleConnectOrder.map (fun k => (k, n))
+    | .disconnected .. => tupleDisconnectOrder.map (fun k => (k, n)))
+
+/-- the notifications component `k` of the tuple saw -/
+def componentView (k : Nat) (ds : List (Nat × Notif)) : List Notif := (ds.filter (fun d => d.1 == k)).map (·.2)
+
 /-! ### init.rs synchronize_listeners -/
 
 /-- lightning::chain::BlockLocator: tip hash, height, and up to 12 ancestor hashes (tip-1, tip-2, …) -/
